@@ -165,3 +165,8 @@ impl Frame {
         return end - start;
     }
 }
+
+// Verification hooks (harnesses live in /verif/hooks); inert unless built with --cfg rdest_verif or by cargo-kani
+#[cfg(any(kani, rdest_verif))]
+#[path = "/verif/hooks/frame.rs"]
+mod verif_hooks;
